@@ -555,6 +555,16 @@ def ec_cases(cn, sub):
             yield dict(base, entry="import", fmt="raw", point=raw)
             yield dict(base, entry="import", fmt="spki", point=raw)
         yield dict(base, entry="construct")
+    elif sub == "nearmiss" and c.kind != "montgomery":
+        for form, b, x, y in near_miss_points(cn):
+            yield dict(base, entry="construct", x=x, y=y, nearmiss=[form, b])
+            yield dict(base, entry="EccPoint", x=x, y=y, nearmiss=[form, b])
+            if c.kind == "weierstrass":
+                yield dict(base, entry="import", fmt="sec1", point=H.sec1_raw(cn, x, y), nearmiss=[form, b])
+    elif sub == "nearmiss":
+        s0 = seeds_for(cn)[0][2]
+        for form, b, u in near_miss_publics(cn, s0):
+            yield dict(base, entry="construct", seed=s0, x=u, nearmiss=[form, b])
     elif sub == "priv" and c.kind == "weierstrass":
         nn = c.order
         top = (1 << (8 * n)) - 1
@@ -621,6 +631,66 @@ def ec_cases(cn, sub):
                 yield dict(base, entry="construct", seed=s, x=c.Gx, y=c.Gy)
 
 
+def near_miss_points(cn):
+    """points that miss the curve equation by a single bit of the machine representation.
+
+    The library compares the two sides of the curve equation as arrays of 64-bit words, in plain form or in Montgomery
+    form (value * 2^(64*words) mod p).  For both forms R and EVERY bit b of the array, a pair (x, y) is built whose two
+    sides differ by exactly +-2^b in that form: an equality test that drops or masks any bit lets one of them through.
+    -> [(form, bit, x, y)]"""
+    c = E.CURVES[cn]
+    p = c.p
+    words = (p.bit_length() + 63) // 64
+    out = []
+    for form, R in (("plain", 1), ("montgomery", 1 << (64 * words))):
+        Ri = pow(R, -1, p)
+        for b in range(64 * words):
+            found = None
+            for xi in range(12):
+                x = (c.Gx + xi) % p
+                for sgn in (1, -1):
+                    delta = sgn * (1 << b) * Ri % p
+                    if delta == 0:
+                        continue
+                    if c.kind == "weierstrass":
+                        rhs = (x * x * x + c.a * x + c.b) % p
+                        Y = (rhs + delta) % p
+                    else:
+                        den = (1 - c.d * x * x) % p
+                        if den == 0:
+                            continue
+                        Y = (1 + delta - c.a * x * x) * pow(den, -1, p) % p
+                    y = E.sqrt_mod(Y, p)
+                    if y is not None and not E.on_curve(c, (x, y)):
+                        found = (x, y)
+                        break
+                if found:
+                    break
+            if found:
+                out.append((form, b, found[0], found[1]))
+    return out
+
+
+def near_miss_publics(cn, seed):
+    """Montgomery curves: public values that differ from the one belonging to `seed` in one bit of the plain or the
+    Montgomery representation -> [(form, bit, u)]"""
+    c = E.CURVES[cn]
+    p = c.p
+    words = (p.bit_length() + 63) // 64
+    exp = seed_public(cn, seed)
+    out = []
+    for form, R in (("plain", 1), ("montgomery", 1 << (64 * words))):
+        Ri = pow(R, -1, p)
+        for b in range(64 * words):
+            v = (exp * R % p) ^ (1 << b)
+            if v >= p:
+                continue
+            u = v * Ri % p
+            if u != exp:
+                out.append((form, b, u))
+    return out
+
+
 def ec_worker(shards):
     from ._c05_base import install_seams
     install_seams()
@@ -636,6 +706,9 @@ def ec_worker(shards):
             ent = case["entry"] if case["entry"] != "import" else "import-" + case["fmt"]
             acc.seen("classes", ("ec", cn, ent, cls, res))
             acc.seen("ec_entries", (cn, ent))
+            if case.get("nearmiss"):
+                acc.count("ec_near_miss_cases")
+                acc.seen("ec_near_miss_bits", (cn, case["nearmiss"][0], case["nearmiss"][1]))
             if res == "accepted":
                 acc.count("ec_accept")
             elif res == "ValueError":
@@ -661,4 +734,7 @@ def ec_shards():
     for cn in H.MONT:
         sh.append([(cn, "mont", 0, 1)])
         sh.append([(cn, "priv", 0, 1)])
+    for cn in H.ALL:
+        for part in range(2):
+            sh.append([(cn, "nearmiss", part, 2)])
     return sh
